@@ -201,7 +201,11 @@ def _build(t, order, memo, files):
     if k == "ndarray":
         dt = np.dtype(t["dtype"])
         conv = (lambda s: s == "True") if dt == np.bool_ else (float if dt.kind == "f" else int)
-        return np.array([conv(s) for s in t["v"]], dtype=dt).reshape(tuple(t["shape"]))
+        arr = np.array([conv(s) for s in t["v"]], dtype=dt).reshape(tuple(t["shape"]))
+        if order and arr.ndim >= 2:
+            # "other insertion orders" for arrays = another memory layout of the same logical content
+            arr = np.asfortranarray(arr) if order % 2 else np.ascontiguousarray(arr.T).T
+        return arr
     if k == "path":
         return getattr(pathlib, t["cls"])(t["v"])
     if k == "type":
